@@ -25,6 +25,7 @@ from vx.units._cread import add_classread
 from vx.units.rskip import add_skip_attributes
 
 PROPS = ['C17']
+RLIMIT = 50
 R = 'duke/src/class_reader.rs'
 CC = 'duke/src/class_constants.rs'
 V = 'duke/src/visitor/'
